@@ -23,7 +23,7 @@ build() {  # build <targets...>
     echo "BUILD FAILED for $id (see $B/make_$id.log)"; grep -m5 -E "error" "$B/make_$id.log" | cut -c1-300; exit 2
   fi
 }
-if [ "$tier" = thorough ]; then DL=${VERIF_DEADLINE:-1500}; else DL=${VERIF_DEADLINE:-170}; fi
+if [ "$tier" = thorough ]; then DL=${VERIF_DEADLINE:-3000}; else DL=${VERIF_DEADLINE:-170}; fi
 case "$id" in
   C01|C02|C07|C08|C09|C10) build "$B/search"; exec "$B/search" --prop "$id" --tier "$tier" --deadline "$DL" ;;
   C03|C04) build "$B/segmentation" "$B/ompbind_real"; exec "$B/segmentation" --prop "$id" --tier "$tier" --deadline "$DL" --ompbind-bin "$(cd "$B" && pwd)/ompbind_real" ;;
